@@ -1,4 +1,5 @@
 """C15 -- view lookup does not depend on lookup history, caching or thread interleaving."""
+import json
 import os
 from harness.common import facts as F
 from . import translate as T
@@ -76,6 +77,14 @@ def facts(src):
         if fn is None:
             raise T.Unknown('fallback _clear_view_lookup_cache not found')
         fmode = T.clear_mode(fn, '_registry')
+        outer = m.find('Configurator._fix_registry')
+        tail = [T.u(x) for x in outer.body[-2:]]
+        want = ["if not hasattr(_registry, '_lock'):\n    _registry._lock = threading.Lock()",
+                "if not hasattr(_registry, '_clear_view_lookup_cache'):\n\n    def _clear_view_lookup_cache():\n"
+                "        _registry._view_lookup_cache = %s\n    _registry._clear_view_lookup_cache = _clear_view_lookup_cache"
+                % ('{}' if fmode == 'Swap' else None)]
+        if fmode == 'Swap' and tail != want:
+            raise T.Unknown('the statements of _fix_registry that install the lock and the clear: %r' % tail)
     except Exception as e:
         problems.append('config/__init__.py fallback clear not recognised: %s' % e)
     try:
@@ -103,6 +112,32 @@ def facts(src):
     except Exception as e:
         reads_only = False
         problems.append('view.py:_call_view does not just iterate over the cached candidate list: %s' % e)
+    # coverage facts (fail closed): where the cache / the lock are touched, where view adapters are registered, the
+    # fragment of the register action that decides classifiers and the clear, the Registry class skeleton
+    try:
+        T.cache_touch_sites(src)
+    except Exception as e:
+        problems.append('cache / lock touched outside the modelled functions: %s' % e)
+    try:
+        T.view_adapter_sites(m.tree)
+    except Exception as e:
+        problems.append('config/views.py registers view adapters outside add_view.register_view: %s' % e)
+    try:
+        fn = m.find('ViewsConfiguratorMixin.add_view.register')
+        got = T.register_tail(fn)
+        want = json.load(open(os.path.join(HERE, 'pins_fragments.json')))['pyramid/config/views.py'][
+            'ViewsConfiguratorMixin.add_view.register']
+        summary['pyramid/config/views.py:add_view.register[tail]'] = got
+        if got != want:
+            problems.append('shape pin (fragment) config/views.py:add_view.register from the first register_view call to '
+                            'the end changed (%s -> %s)' % (want, got))
+    except Exception as e:
+        problems.append('config/views.py register action tail: %s' % e)
+    try:
+        mr = F.Module(src, 'pyramid/registry.py')
+        T.registry_class(mr.find('Registry'))
+    except Exception as e:
+        problems.append('registry.py class Registry: %s' % e)
     mv_stateless = True
     try:
         cls = m.find('MultiView')
@@ -127,13 +162,16 @@ def facts(src):
            'Definition clear_mode_fallback : clear_mode := %s.\n'
            '(* translated from the register action of add_view (config/views.py) *)\n'
            'Definition register_prog : list instr :=\n  %s.\n'
+           '(* the same action on a registry that is not a pyramid Registry (clear installed by _fix_registry) *)\n'
+           'Definition register_prog_fallback : list instr :=\n  %s.\n'
            '(* _call_view only iterates over the candidate list it got from _find_views (the cached object) *)\n'
            'Definition call_view_reads_only : bool := %s.\n'
            '(* a MultiView (the object the cache holds) keeps nothing derived from requests: serving only reads it *)\n'
            'Definition multiview_stateless : bool := %s.\n'
            % ('; '.join(str(T.VIEW_TYPE_IDS[n]) for n in vt), T.coq_prog(lookup), ', '.join(key_names),
               'KeyFull' if 'view_classifier' in key_names else 'KeyTriad', F.coq_bool('view_types' in key_names),
-              mode, fmode, T.coq_prog(register), F.coq_bool(reads_only), F.coq_bool(mv_stateless)))
+              mode, fmode, T.coq_prog(register), T.coq_prog(register).replace('clear_mode_registry', 'clear_mode_fallback'),
+              F.coq_bool(reads_only), F.coq_bool(mv_stateless)))
     summary.update({'lookup_prog': T.coq_prog(lookup), 'register_prog': T.coq_prog(register).replace('clear_mode_registry', mode),
                     'clear_mode': mode, 'clear_mode_fallback': fmode, 'view_types': vt, 'params': T.flat_params(lookup), 'call_view_reads_only': reads_only, 'multiview_stateless': mv_stateless, 'cache_key': key_names,
                     'cache_key_mode': 'KeyFull' if 'view_classifier' in key_names else 'KeyTriad',
@@ -322,7 +360,8 @@ def gen_hist(rng):
             steps.append(q)
         else:
             steps.append(reg())
-    return {'hist': steps, 'order': 1 if use_accept and rng.random() < 0.3 else 0}
+    return {'hist': steps, 'order': 1 if use_accept and rng.random() < 0.3 else 0,
+            'foreign': 1 if steps[0]['t'] == 'V' and rng.random() < 0.2 else 0}
 
 
 HKEYS = [None, 'html', 'json', 'json', 'plain', 'jh', 'html1', 'textany', 'anylow', 'xml']
@@ -372,8 +411,12 @@ def hist_scenarios():
                          Q(1, 'X', 'GET', cl=1), Q(1, 'Y', 'GET', cl=1), Q(1, 'Y', 'GET', cl=0), Q(3, 'Y', 'GET', cl=1)]})
     out.append({'hist': [V(1, 'A', None, 1), V(1, 'X', 'POST', 2, 0, None, 0, 1), Q(1, 'X', 'POST', cl=1),
                          Q(1, 'X', 'POST', cl=0), V(1, 'X', 'POST', 3), Q(1, 'X', 'POST', cl=0), Q(1, 'X', 'POST', cl=1)]})
+    # a registry that is not a pyramid Registry (lock and clear installed by Configurator._fix_registry)
+    out.append({'hist': [V(1, 'A', None, 1), Q(1, 'A', 'GET'), V(1, 'A', None, 2), Q(1, 'A', 'GET'),
+                         V(1, 'A', 'POST', 3), Q(1, 'A', 'POST'), Q(1, 'B', 'GET')], 'foreign': 1})
     for c in out:
         c.setdefault('order', 0)
+        c.setdefault('foreign', 0)
     return out
 
 
@@ -470,7 +513,10 @@ class Gen:
                 ops.append(last)
             else:
                 ops.append(self.reg(near=last))
-        return {'init': init, 'ops': ops}
+        c = {'init': init, 'ops': ops}
+        if init and rng.random() < 0.15:
+            c['foreign'] = 1          # a non-pyramid registry: the clear installed by _fix_registry
+        return c
 
 
 def systematic():
@@ -508,6 +554,16 @@ def systematic():
     return out
 
 
+def foreign_schedules():
+    out = []
+    for c in refuted_schedules():
+        if c['init']:
+            d = dict(c)
+            d['foreign'] = 1
+            out.append(d)
+    return out
+
+
 def refuted_schedules():
     """the schedules of the _refuted lemmas of Proofs/C15.v (ready-made replays for a changed program parameter)"""
     stale = {'init': [Rg(1, 'A', 0, 0, 1)],
@@ -524,7 +580,7 @@ def generate(rng, tier, n):
         for i in range(8):
             yield {'soak': rng.randrange(10 ** 6), 'threads': rng.choice([3, 4, 6, 8]), 'regs': 120}
             k += 1
-    for c in refuted_schedules() + hist_scenarios():
+    for c in refuted_schedules() + foreign_schedules() + hist_scenarios():
         yield c
         k += 1
     sysl = systematic()
@@ -541,7 +597,7 @@ def generate(rng, tier, n):
 
 
 def targeted(broken, disagreements, rng):
-    out = list(refuted_schedules()) + hist_scenarios()
+    out = list(refuted_schedules()) + foreign_schedules() + hist_scenarios()
     # the stale-write schedule with the registration at every internal point and for several keys
     for req, ctx in ((1, 'A'), (1, 'C'), (3, 'B')):
         n = npoints(req, ctx)
@@ -591,7 +647,10 @@ def valid(case):
             return set(case) == {'soak', 'threads', 'regs'} and all(isinstance(case[x], int) for x in case) \
                 and 1 <= case['threads'] <= 32 and 1 <= case['regs'] <= 1000
         if isinstance(case, dict) and 'hist' in case:
-            if set(case) != {'hist', 'order'} or case['order'] not in (0, 1) or not isinstance(case['hist'], list) \
+            if set(case) | {'foreign'} != {'hist', 'order', 'foreign'} or case['order'] not in (0, 1) \
+                    or case.get('foreign', 0) not in (0, 1) \
+                    or (case.get('foreign') and not (case['hist'] and isinstance(case['hist'][0], dict) and case['hist'][0].get('t') == 'V')) \
+                    or not isinstance(case['hist'], list) \
                     or len(case['hist']) > 40:
                 return False
             for st in case['hist']:
@@ -618,7 +677,8 @@ def valid(case):
                 else:
                     return False
             return True
-        if not isinstance(case, dict) or set(case) != {'init', 'ops'}:
+        if not isinstance(case, dict) or set(case) | {'foreign'} != {'init', 'ops', 'foreign'} \
+                or case.get('foreign', 0) not in (0, 1) or (case.get('foreign') and not case.get('init')):
             return False
         if not _ops_ok(case['init'], 0) or not _ops_ok(case['ops'], 0):
             return False
@@ -660,7 +720,7 @@ def to_wire(case):
     if not _sro_tbl:
         setup('quick')
     if 'soak' in case:
-        return [_sro_tbl, [], [], []]
+        return [_sro_tbl, [], [], [], 0]
     if 'hist' in case:
         book = Book(_impl['override_unregisters'], _impl['orders'][case['order']])
         ops, ans = [], []
@@ -670,8 +730,8 @@ def to_wire(case):
                 ans.append([oid, book.table(st)])
             else:
                 ops.append([1, oid, book.register(st), [], []])
-        return [_sro_tbl, [], ops, ans]
-    return [_sro_tbl, [u for r in case['init'] for u in _wire_updates(r)], _wire_ops(case['ops'], [0]), []]
+        return [_sro_tbl, [], ops, ans, case.get('foreign', 0)]
+    return [_sro_tbl, [u for r in case['init'] for u in _wire_updates(r)], _wire_ops(case['ops'], [0]), [], case.get('foreign', 0)]
 
 
 def _srt(cache):
@@ -783,7 +843,15 @@ def setup(tier):
             except KeyError:
                 raise AttributeError('_view_lookup_cache')
 
+    from zope.interface.registry import Components
+
+    class Foreign(Components):
+        """a component registry that is NOT a pyramid Registry: Configurator._fix_registry installs the lock and the
+        cache clear on it; same attribute seam as Reg"""
+        _view_lookup_cache = Reg.__dict__['_view_lookup_cache']
+
     classes = {'A': O15A, 'B': O15B, 'C': O15C, 'D': O15D, 'E': O15E, 'X': O15X, 'Y': O15Y}
+    _impl['Foreign'] = Foreign
     # harness-side patch of the module global (no source change): record what each lookup made by _call_view returned,
     # as a copy taken at return time
     if not hasattr(pview._find_views, 'c15_orig'):
@@ -890,11 +958,24 @@ class _LockProxy:
 
 
 class _World:
-    def __init__(self, order=0):
+    def __init__(self, order=0, foreign=0):
         im = _impl
-        self.reg = reg = im['Reg']('c15')
+        self.reg = reg = (im['Foreign'] if foreign else im['Reg'])('c15')
         self.config = config = im['Configurator'](registry=reg, autocommit=True)
         config.setup_registry()
+        if foreign:
+            # the clear installed by _fix_registry is an instance attribute: wrap it the way Reg wraps the method
+            orig = reg._clear_view_lookup_cache
+
+            def hooked():
+                h = reg.__dict__.pop('_c15_hook', None)
+                if h is not None:
+                    h(0)
+                r = orig()
+                if h is not None:
+                    h(1)
+                return r
+            reg._clear_view_lookup_cache = hooked
         config.set_security_policy(_Policy())
         config.add_route('r1', '/r1')
         if order:
@@ -1229,13 +1310,13 @@ def run_soak(case):
 def run_hist(case):
     """a history of requests (through _call_view) and registrations on ONE application; next to each answer, what a
     freshly built application holding the same registrations answers to that single request"""
-    w = _World(order=case['order'])
+    w = _World(order=case['order'], foreign=case.get('foreign', 0))
     w.start()
     fresh = []
     for oid, st in enumerate(case['hist']):
         if st['t'] == 'Q':
             w.hist_request(st, oid)
-            f = _World(order=case['order'])
+            f = _World(order=case['order'], foreign=case.get('foreign', 0))
             for prev in case['hist'][:oid]:
                 if prev['t'] == 'V':
                     f.add_view_pred(prev)
@@ -1254,7 +1335,7 @@ def run_impl(case):
         return run_soak(case)
     if 'hist' in case:
         return run_hist(case)
-    w = _World()
+    w = _World(foreign=case.get('foreign', 0))
     for r in case['init']:
         w.add_view(r)
     w.number(case['ops'], [0])
@@ -1440,6 +1521,8 @@ def kinds(case, obs):
             k.append('hist')
             if case['order']:
                 k.append('hist-custom-accept-order')
+            if case.get('foreign'):
+                k.append('hist-foreign-registry')
             if any(st['t'] == 'V' and st['acc'] == 'html1' for st in case['hist']):
                 k.append('hist-accept-with-params')
             if any(st['t'] == 'Q' and st['h'] in ('textany', 'anylow') for st in case['hist']):
@@ -1495,6 +1578,8 @@ def kinds(case, obs):
             k.append('has-multi-result')
         if any(t[2] for t in threads):
             k.append('has-crash')
+        if case.get('foreign'):
+            k.append('foreign-registry')
         if any(o.get('cl') for o in _all_lookups(case['ops'])):
             k.append('has-exception-classifier-lookup')
         if any(t[0] == 1 for t in threads):
